@@ -43,4 +43,34 @@ CHECKS = {
         "note": "Tolerances are ulp-based relative to the magnitudes involved; points within 4 ulp*scale of a boundary are excluded from membership assertions; norms below 1e-150 are floored (underflow of hypot).",
         "technique": "property-based testing of geometric identities and invariants with exact rational reference arithmetic (Hypothesis)",
     },
+    "C04": {
+        "text": "Rule-based state machines over histories of requests (operators with boundary conditions on three routes, raw operators, ghost-cell setters, PDE rates / compiled right-hand sides / short solves with reused equation objects, expression evaluations; fields linked into collections, written and interpolated) drawn from a pool of configurations that coincide in some attributes, with a generator that derives each request from an earlier one by changing exactly one attribute. Oracle: after every step the same request, with the current contents of the fields involved, is evaluated in a pristine fork of a zygote process that imported the package and never evaluated anything; every history itself runs in its own pristine fork. Interpreted-source breadth plus a real-JIT sample. Exploration: held on all generated histories.",
+        "ref": "DESIGN.md section 4, C04",
+        "note": "Fresh interpreter = fork of a zygote that imported pde, the lazily imported third-party modules and created the (empty) backend singletons; global configuration is never changed inside a history; requests are deterministic.",
+        "technique": "stateful property-based testing with a fresh-process differential oracle (Hypothesis RuleBasedStateMachine + fork server)",
+    },
+    "C05": {
+        "text": "Generated grids of every class (anisotropic, with hole), zero-flux boundary assignments (periodic / derivative 0 / auto_periodic_neumann; arbitrary condition at r=0 of hole-free grids) and inputs (dense random and one-hot = every column of the operator matrix, real/complex): the volume-weighted sum of the Laplacian (and of the divergence with vanishing normal boundary component on Cartesian and conservative spherical grids) vanishes within a condition-aware bound, with cell volumes from the harness' own closed forms; simulations of diffusion, Cahn-Hilliard and divergence-form expression equations with every solver, both backends, step sizes 1e-5..1 (incl. unstable) keep the integral at every recorded step; the package's MaterialConservationTracker stays silent on bounded runs. Exploration: held on all generated cases.",
+        "ref": "DESIGN.md section 4, C05",
+        "note": "Spherical non-conservative stencils and polar/cylindrical divergence are outside the statement; runs are judged while the state is finite; ConvergenceError of implicit solvers counts as rejected.",
+        "technique": "property-based testing of an algebraic invariant (Hypothesis), incl. one-hot extraction of operator columns",
+    },
+    "C06": {
+        "text": "A harness-defined PDEBase subclass du/dt = a*u + b*p(t) (real/complex a, cubic p) is solved with every fixed-step solver on both backends (interpreted-source breadth + real-JIT sample) for generated dt, step counts, start times, states and tracker-cut segments and compared with textbook one-step maps (Euler, RK4, backward Euler, Crank-Nicolson, AB2 with documented start-up, RKF45 from Fehlberg's table as rationals) carrying a running round-off/conditioning bound; stage times via quadrature identities; adaptive runs: end time, error bound steps*tolerance*2, single-step accept/reject polynomials; numpy vs numba agreement; scipy against the exact solution. Exploration: held on all generated cases.",
+        "ref": "DESIGN.md section 4, C06",
+        "note": "Trusts the reference one-step maps (order conditions asserted) and mpmath exact solutions; implicit schemes judged when converged; non-autonomous adaptive Euler judged on end time only (stage-time quirk outside the statement).",
+        "technique": "property-based testing against reference models of the numerical schemes (Hypothesis)",
+    },
+    "C13": {
+        "text": "Generated SDEs (built-in classes and harness SDEBase subclasses with additive, multiplicative, per-component and per-field variances), states (scalar/vector/tensor/collections) on grids with non-uniform cell volumes, interpretations, step sizes, step counts and seeds are solved with euler, milstein and the semi-implicit solver on the numpy backend and compared with a reference recursion that uses a parallel numpy Generator (exactly one standard_normal draw of the state's shape per step, documented increment, drift and Milstein correction, cell volumes from the harness); draw accounting (next draw of eq.rng equals the reference's), seed reproducibility bit for bit, zero variance == deterministic run (numpy and numba). Exploration: held on all generated cases.",
+        "ref": "DESIGN.md section 4, C13",
+        "note": "Trusts the reference recursion written from the documentation; numba backend only for the zero-variance clause (its generator is documented to be numba's own); complex states and make_noise_realization are outside the statement.",
+        "technique": "property-based testing against a reference model with a parallel random generator (Hypothesis)",
+    },
+    "C14": {
+        "text": "Generated grids of every class with the full constructor-argument space (holes, numpy-typed radii/shapes/bounds/flags) go through 12 reconstruction routes (from_state dict/JSON, copy, copy.copy, deepcopy incl. containers, pickle) and are compared attribute by attribute (bounds incl. inner radius, shape, periodicity, axes, discretization, cell volumes, volume, ==); fields of all classes/ranks/dtypes/labels and collections through serialised attributes + data; FieldCollection.from_data with and without ghost cells on every grid type; storage field_attributes route. Exploration: held on all generated cases.",
+        "ref": "DESIGN.md section 4, C14",
+        "note": "Equality is the package's == plus an explicit attribute list; float bounds are compared exactly (the round trip is specified as lossless); float32 radii are not generated.",
+        "technique": "round-trip property-based testing (Hypothesis)",
+    },
 }
